@@ -344,3 +344,69 @@ mut("C17", "insert_twice", "every read message is inserted twice into the condit
             self.heap.push(TimedMessage { timestamp, sequence: self.next_sequence, channel_id, message });
         }
 """))
+
+# ------------------------------------------------------------------ C11
+MUTS = "src/server/replication_messages/mutations.rs"
+mut("C11", "reintroduce_d5_outer_is_empty", "is_empty looks at the outer length of the related groups", ["is_empty-on-related"],
+    (MUTS, "self.standalone.is_empty() && self.related.iter().all(Vec::is_empty)", "self.standalone.is_empty() && self.related.is_empty()"))
+mut("C11", "is_empty_ignores_related", "is_empty only looks at standalone entities (related mutations never sent alone)", ["covers-all-content"],
+    (MUTS, "self.standalone.is_empty() && self.related.iter().all(Vec::is_empty)", "self.standalone.is_empty()"))
+mut("C11", "mutations_always_sent", "mutate message sent regardless of content", ["Mutations-sent-only-when-non-empty"],
+    ("src/server.rs", "if !mutations.is_empty() || track_mutate_messages {", "if !mutations.is_empty() || track_mutate_messages || server_tick.get() % 2 == 0 {"))
+mut("C11", "updates_is_empty_ignores_mappings", "a mappings-only tick is not sent", ["is_empty-agrees-with-flags", "covers-serialised"],
+    ("src/server/replication_messages/updates.rs", """            && self.removals.is_empty()
+            && self.mappings.is_empty()""", """            && self.removals.is_empty()"""))
+mut("C11", "flags_ignore_removals", "removal-only ticks are sent without their section", ["is_empty-agrees-with-flags"],
+    ("src/server/replication_messages/updates.rs", """        if !self.removals.is_empty() {
+            flags |= UpdateMessageFlags::REMOVALS;
+        }
+""", ""))
+mut("C11", "ack_stores_current_tick", "acknowledgement moves the baseline to the current tick", ["stores-the-recorded-tick", "forward-only"],
+    ("src/shared/replication/client_ticks.rs", """            if !last_tick.is_newer_than(mutate_info.tick, tick) {
+                *last_tick = mutate_info.tick;
+            }""", """            if !last_tick.is_newer_than(mutate_info.tick, tick) {
+                *last_tick = tick;
+            }"""))
+mut("C11", "ack_not_forward_only", "acknowledgement overwrites a newer baseline", ["forward-only"],
+    ("src/shared/replication/client_ticks.rs", """            if !last_tick.is_newer_than(mutate_info.tick, tick) {
+                *last_tick = mutate_info.tick;
+            }""", """            *last_tick = mutate_info.tick;"""))
+mut("C11", "ack_direction_inverted", "baseline only moves when the stored tick is newer", ["forward-only"],
+    ("src/shared/replication/client_ticks.rs", "if !last_tick.is_newer_than(mutate_info.tick, tick) {", "if last_tick.is_newer_than(mutate_info.tick, tick) {"))
+mut("C11", "unknown_ack_bumps_everything", "an unknown index acknowledges all entities", ["unclassified-writer", "only-for-known-message", "ack"],
+    ("src/shared/replication/client_ticks.rs", """            debug!("received unknown `{mutate_index:?}` from client `{client}`");
+            return;""", """            debug!("received unknown `{mutate_index:?}` from client `{client}`");
+            for last_tick in self.mutation_ticks.values_mut() {
+                *last_tick = tick;
+            }
+            return;"""))
+mut("C11", "cleanup_bumps_baseline", "timing out an unacknowledged message moves baselines", ["cleanup_older_mutations", "unclassified-writer"],
+    ("src/shared/replication/client_ticks.rs", """                entity_buffer.push(mem::take(&mut mutate_info.entities));
+                false""", """                for entity in &mutate_info.entities {
+                    self.mutation_ticks.insert(*entity, mutate_info.tick);
+                }
+                entity_buffer.push(mem::take(&mut mutate_info.entities));
+                false"""))
+mut("C11", "baseline_set_to_last_run", "structural change bumps the baseline to last_run", ["passes-this_run"],
+    ("src/server.rs", "ticks.set_mutation_tick(entity.id(), change_tick.this_run());", "ticks.set_mutation_tick(entity.id(), change_tick.last_run());"))
+mut("C11", "client_acks_before_buffering", "client acknowledges before the message is buffered (and even if buffering fails)", ["ack-after-buffering"],
+    ("src/client.rs", """    let mutate_index: MutateIndex = postcard_utils::from_buf(&mut message)?;
+    trace!("received mutate message for {message_tick:?}");
+""", """    let mutate_index: MutateIndex = postcard_utils::from_buf(&mut message)?;
+    postcard_utils::to_extend_mut(&mutate_index, acks)?;
+    trace!("received mutate message for {message_tick:?}");
+"""),
+    ("src/client.rs", """        message,
+    });
+
+    postcard_utils::to_extend_mut(&mutate_index, acks)?;
+""", """        message,
+    });
+"""))
+mut("C11", "client_skips_ack_send_on_error", "acks are dropped when one message failed to buffer", ["acks-always-sent"],
+    ("src/client.rs", """            if let Err(e) = buffer_mutate_message(params, buffered_mutations, message, &mut acks) {
+                error!("unable to buffer mutate message: {e}");
+            }""", """            if let Err(e) = buffer_mutate_message(params, buffered_mutations, message, &mut acks) {
+                error!("unable to buffer mutate message: {e}");
+                return;
+            }"""))
